@@ -16,23 +16,57 @@ namespace Verif.Props.C20
 open Verif.Ring Verif.RingMutex
 open Verif.Gen
 
-/-- the lock facts of the code in the working tree -/
-def codeFacts : LockFacts where
+/-- the tables `go/ringfacts` produces -/
+structure Table where
+  uses : List RingFacts.Use
+  stores : List RingFacts.Store
+  mutations : List RingFacts.Mutation
+  coreLiterals : List RingFacts.CoreLit
+  unknowns : List String
+  mutexFields : Nat
+
+/-- the lock facts a table establishes.  Besides the universally quantified conditions there are existence
+conditions, so that an empty or truncated table (an extractor that no longer finds the code) does NOT pass: some entry
+point stores into a slot *and* advances the cursor, both under the write lock (the `Write` path, whatever its name);
+some entry point reads the cursor and walks the ring under the lock (the `GetLogs` path); a core is built from an
+existing core (the `With`/`clone` path) and one where none exists (the constructor). Roles come from declared types. -/
+def factsOf (t : Table) : LockFacts where
   write_holds_mu :=
-    (RingFacts.uses.all fun u => !u.write || u.held == .write) &&
-    (RingFacts.stores.all fun s => s.fresh) &&
-    RingFacts.mutations.isEmpty
-  getLogs_holds_mu := RingFacts.uses.all fun u => u.write || u.held != .none
-  clone_holds_mu :=
-    RingFacts.unknowns.isEmpty &&
-    (RingFacts.uses.any fun u => u.write && u.what == "slot") &&
-    (RingFacts.uses.any fun u => u.what == "walk") &&
-    !RingFacts.stores.isEmpty
+    (t.uses.all fun u => !u.write || u.held == .write) &&
+    (t.stores.all fun s => s.fresh) &&
+    t.mutations.isEmpty &&
+    (t.stores.any fun s =>
+      (t.uses.any fun u => u.entry == s.entry && u.what == "slot" && u.write && u.held == .write) &&
+      (t.uses.any fun u => u.entry == s.entry && u.what == "cursor" && u.write && u.held == .write))
+  getLogs_holds_mu :=
+    (t.uses.all fun u => u.write || u.held != .none) &&
+    (t.uses.any fun w => w.what == "walk" && w.held != .none &&
+      (t.uses.any fun u => u.entry == w.entry && u.what == "cursor" && !u.write && u.held != .none))
+  clone_holds_mu := t.unknowns.isEmpty
   derived_shares_mu :=
-    RingFacts.mutexFields == 1 &&
-    (RingFacts.coreLiterals.all fun l =>
+    t.mutexFields == 1 &&
+    (t.coreLiterals.all fun l =>
       if l.fromExistingCore then l.mutexFrom == "shared" else l.mutexFrom == "fresh") &&
-    (RingFacts.coreLiterals.any fun l => !l.fromExistingCore)
+    (t.coreLiterals.any fun l => !l.fromExistingCore) &&
+    (t.coreLiterals.any fun l => l.fromExistingCore)
+
+/-- the lock facts of the code in the working tree -/
+def codeFacts : LockFacts :=
+  factsOf ⟨RingFacts.uses, RingFacts.stores, RingFacts.mutations, RingFacts.coreLiterals, RingFacts.unknowns,
+    RingFacts.mutexFields⟩
+
+/-- the facts are not vacuous: they fail on an empty table, on a table without the derived-core literal, on one
+without a cursor write in the storing path, and on one without a walk -/
+theorem C20_facts_not_vacuous :
+    (factsOf ⟨[], [], [], [], [], 1⟩).ok = false ∧
+    (factsOf ⟨RingFacts.uses, RingFacts.stores, RingFacts.mutations,
+      RingFacts.coreLiterals.filter (fun l => !l.fromExistingCore), RingFacts.unknowns, RingFacts.mutexFields⟩).ok = false ∧
+    (factsOf ⟨RingFacts.uses.filter (fun u => !(u.what == "cursor" && u.write)), RingFacts.stores, RingFacts.mutations,
+      RingFacts.coreLiterals, RingFacts.unknowns, RingFacts.mutexFields⟩).ok = false ∧
+    (factsOf ⟨RingFacts.uses.filter (fun u => u.what != "walk"), RingFacts.stores, RingFacts.mutations,
+      RingFacts.coreLiterals, RingFacts.unknowns, RingFacts.mutexFields⟩).ok = false ∧
+    (factsOf ⟨RingFacts.uses, [], RingFacts.mutations, RingFacts.coreLiterals, RingFacts.unknowns,
+      RingFacts.mutexFields⟩).ok = false := by decide
 
 /-- the extracted facts are the ones `C20_conc` needs -/
 theorem C20_lock_facts_hold : codeFacts.ok = true := by decide
